@@ -244,11 +244,11 @@ func cmdCheck(args []string) int {
 			fmt.Println("ENGINE-ERROR:", err)
 			return 2
 		}
-		if u.Only != "" {
+		if u.Only != "" || len(u.OnlySuffix) > 0 {
 			for _, r := range pool.Results {
 				var keep []interp.CheckResult
 				for _, c := range r.Checks {
-					if strings.HasPrefix(c.ID, u.Only) {
+					if u.owns(c.ID) {
 						keep = append(keep, c)
 					}
 				}
@@ -422,7 +422,7 @@ func cmdCheck(args []string) int {
 					ev.TwinsRun++
 					okOwn := res.Ran && !res.Panicked && !res.Assume
 					for _, c := range res.Checks {
-						if strings.HasPrefix(c.ID, u.Only) && !c.OK {
+						if u.owns(c.ID) && !c.OK {
 							okOwn = false
 						}
 					}
